@@ -38,6 +38,17 @@ def check(ctx: Ctx) -> None:
         rep.ob("R19.1", "serve_forever returns the task running _serve_forever()", ok, node=r)
     st = ctx.nodes(f, lambda n: n.op == "assign" and any(e.path == "self._server" for e in ctx.eff.of_node(n)))
     rep.ob("R19.1", "the started server is remembered (is_serving / _serve_forever use it)", bool(st), func=f, construct=st[0] if st else "(self._server not stored)")
+    # WHO(write self._server) = {__init__ (None), serve_forever (the server just started)}: the attribute belongs to the ControlServer, not to
+    # one serving cycle - a reset by anything that runs when an EARLIER cycle winds up (final callback, a session ending) would make
+    # is_serving() false for the cycle that is running now, and every session loop of it would end
+    wr = [e for e in ctx.effects(fields=["_server"], kinds=["assign", "aug", "del"]) if e.path.endswith("._server") and e.node.func.module.name == "control.server"]
+    rep.floor("R19.1", "writes of the server attribute", len(wr), 2)
+    for e in wr:
+        # (judged on the function the store is written in - a helper spliced into it counts as that function; everything that merely runs
+        #  on behalf of serve_forever, like the serving task's final callback, runs when a cycle ENDS)
+        writer = ctx.fname(e.node.root if e.node.root is not None else e.node.func)
+        rep.ob("R19.1", "the server attribute is written only by the constructor and by serve_forever", writer in {"__init__", "serve_forever"}, node=e.node,
+               detail=f"written by {writer}")
     for c in ctx.distinct_sites(ctx.nodes(f, lambda n: ctx.is_call_to(n, "_get_server_instance"))):
         a = c.ast.args[0] if c.ast.args else None
         ok = isinstance(a, ast.Attribute) and a.attr == "_client_connected_cb"
@@ -227,8 +238,21 @@ def check(ctx: Ctx) -> None:
     loops = ctx.nodes(start, lambda n: n.op == "test" and isinstance(n.stmt, ast.While))
     ok = any(ctx.eff.paths(start).of(t.ast) == "self._connected" for t in loops)
     rep.ob("R19.6", "the client's interaction loop runs while connected", ok, func=start, construct=loops[0] if loops else "(no while loop)")
-    # ---------------------------------------------------------------- R19.7
-    rep.rule("R19.7", "sessions are served concurrently: no function of session.py / server.py holds a lock, semaphore or condition that is shared between "
+    r_no_shared_lock(ctx, "R19.7")
+    # positive/negative controls for the effect table
+    ctl = [e for e in ctx.eff.all() if e.kind == "close" and e.container == "StreamWriter"]
+    rep.floor("R19.6", "StreamWriter.close sites in the package (server side + client side)", len(ctl), 2)
+
+
+def r_no_shared_lock(ctx: Ctx, rule: str) -> None:
+    """R19.7 / R18.9: no lock shared between sessions is held across a suspension step"""
+    from ..queries import between
+    rep = ctx.rep
+    prog = ctx.prog
+    sess = prog.cls("control.session.ControlSession")
+    if sess is None:
+        raise AnalysisError("anchor: control.session.ControlSession missing")
+    rep.rule(rule, "sessions are served concurrently: no function of session.py / server.py holds a lock, semaphore or condition that is shared between "
                       "sessions (reachable through the server, a class or a module) across a suspension step - one client's waiting command would block "
                       "every other session, hide its EOF and delay the stop")
     n_regions = 0
@@ -246,12 +270,9 @@ def check(ctx: Ctx) -> None:
             path = ctx.eff.paths(fn).of(en.ast.context_expr) or ast.unparse(en.ast.context_expr)
             own = path.startswith("self._") and path.count(".") == 1 and prog.enclosing_class(fn) is sess and \
                 (sess.fields.get(path.split(".")[1]) is not None and sess.fields[path.split(".")[1]][2].name == "__init__")
-            rep.ob("R19.7", "a synchronisation object shared between sessions is not held across a suspension step", own or not susp, node=en,
+            rep.ob(rule, "a synchronisation object shared between sessions is not held across a suspension step", own or not susp, node=en,
                    detail="" if (own or not susp) else f"{path} is held while `{susp[0].text(50)}` waits ({susp[0].where()})")
         for aw in ctx.nodes(fn, lambda n: n.op == "await" and n.awaited is not None and n.awaited.kind == "ext" and n.awaited.name in ("Lock.acquire", "Semaphore.acquire", "Condition.acquire")):
             n_regions += 1
-            rep.ob("R19.7", "no explicit acquire of a lock/semaphore in the serving path", False, node=aw)
-    rep.ob("R19.7", "lock regions in session.py / server.py examined", True, construct=f"{n_regions} region(s)")
-    # positive/negative controls for the effect table
-    ctl = [e for e in ctx.eff.all() if e.kind == "close" and e.container == "StreamWriter"]
-    rep.floor("R19.6", "StreamWriter.close sites in the package (server side + client side)", len(ctl), 2)
+            rep.ob(rule, "no explicit acquire of a lock/semaphore in the serving path", False, node=aw)
+    rep.ob(rule, "lock regions in session.py / server.py examined", True, construct=f"{n_regions} region(s)")
